@@ -16,14 +16,15 @@ import (
 	"github.com/btcsuite/btcd/wire/v2"
 )
 
-func newPS(k *mon.Case, nonfinal bool) (*poolsim.PS, error) {
+func newPS(k *mon.Case, std bool) (*poolsim.PS, error) {
 	r := k.Rand
 	g := chaingen.New(node.NewParams(node.FamRegtest), node.FamRegtest, r)
 	g.MaxTx = 3
 	mp := node.DefaultMemPolicy()
 	mp.MaxOrphanTxs = []int{1, 2, 5, 100}[r.Intn(4)]
 	mp.RejectReplacement = r.Chance(1, 8)
-	mp.AcceptNonStd = true
+	mp.AcceptNonStd = !std
+	g.StandardOnly = std
 	if r.Chance(1, 4) {
 		mp.MinRelayTxFee = btcutil.Amount([]int64{0, 500, 5000}[r.Intn(3)])
 	}
@@ -263,14 +264,14 @@ func oneOp(ps *poolsim.PS, r *mon.Rand, allowChainOps bool) {
 func ptr[T any](v T) *T { return &v }
 
 func runSeq(k *mon.Case) {
-	ps, err := newPS(k, false)
+	ps, err := newPS(k, k.Rand.Chance(1, 4))
 	if err != nil {
 		k.Failf("harness:open", "%v", err)
 		return
 	}
 	defer ps.Destroy()
 	r := k.Rand
-	k.Desc(map[string]any{"mode": "sequential", "maxorphans": ps.F.MemPolicy.MaxOrphanTxs, "rejectreplacement": ps.F.MemPolicy.RejectReplacement})
+	k.Desc(map[string]any{"mode": "sequential", "standard_policy": !ps.F.MemPolicy.AcceptNonStd, "maxorphans": ps.F.MemPolicy.MaxOrphanTxs, "rejectreplacement": ps.F.MemPolicy.RejectReplacement})
 	n := 60 + r.Intn(40)
 	for i := 0; i < n && !ps.Failed; i++ {
 		oneOp(ps, r, true)
@@ -283,7 +284,7 @@ func runSeq(k *mon.Case) {
 
 // runNonFinal: the documented defect family — with AcceptNonStd the pool does not check lock-time finality.
 func runNonFinal(k *mon.Case) {
-	ps, err := newPS(k, true)
+	ps, err := newPS(k, false)
 	if err != nil {
 		k.Failf("harness:open", "%v", err)
 		return
@@ -355,6 +356,16 @@ func runConcurrent(k *mon.Case) {
 				}
 			}()
 			for _, i := range rr.Perm(len(j.txs)) {
+				if rr.Chance(1, 3) {
+					// the path the reorg handler uses
+					_, d, err := ps.F.Pool.MaybeAcceptTransaction(btcutil.NewTx(j.txs[i]), rr.Bool(), false)
+					if err == nil && d != nil {
+						accepted.Add(1)
+					} else {
+						rejected.Add(1)
+					}
+					continue
+				}
 				acc, err := ps.F.Pool.ProcessTransaction(btcutil.NewTx(j.txs[i]), true, false, 0)
 				if err == nil && len(acc) > 0 {
 					accepted.Add(1)
@@ -396,6 +407,57 @@ func runConcurrent(k *mon.Case) {
 	k.Eval(mon.Sig("conc", nw, accepted.Load()), true)
 }
 
+// runRefused: a confirmed transaction that the pool's policy refuses (version 3 under the standard policy) has a
+// pooled child; when its block is disconnected by a reorganisation the handler cannot re-admit it and must evict the child.
+func runRefused(k *mon.Case) {
+	ps, err := newPS(k, true)
+	if err != nil {
+		k.Failf("harness:open", "%v", err)
+		return
+	}
+	defer ps.Destroy()
+	r := k.Rand
+	k.Desc(map[string]any{"mode": "refused-at-disconnect"})
+	v := ps.View()
+	coins := ps.Coins(v, false)
+	if len(coins) < 2 {
+		return
+	}
+	forkBase := ps.Tip
+	parent := ps.Build(poolsim.TxSpec{In: coins[:1], Fee: fee(r), NOut: 2, Version: 3})
+	ps.F.Clock.Set(ps.F.Clock.Now() + 600)
+	b := ps.G.Block(r, ps.Tip, chaingen.BlockOpts{Txs: []*wire.MsgTx{parent}, TimeStep: 600})
+	ps.DeliverBlock(b)
+	if r.Bool() {
+		nb := ps.G.Block(r, ps.Tip, chaingen.BlockOpts{NTx: 0})
+		ps.DeliverBlock(nb)
+	}
+	// pooled child (and grandchild) of the confirmed version-3 transaction
+	pc := chaingen.Spendable{Op: wire.OutPoint{Hash: parent.TxHash(), Index: 0}, Coin: refchain.Coin{Amount: parent.TxOut[0].Value, PkScript: parent.TxOut[0].PkScript, Height: b.Height}}
+	child := ps.Build(poolsim.TxSpec{In: []chaingen.Spendable{pc}, Fee: fee(r), NOut: 2})
+	o := ps.Submit(child, false, "process", nil)
+	if o.Err != nil || len(o.Accepted) == 0 {
+		k.Count("refused.child_not_accepted", 1)
+		return
+	}
+	if r.Bool() {
+		gc := chaingen.Spendable{Op: wire.OutPoint{Hash: child.TxHash(), Index: 0}, Coin: refchain.Coin{Amount: child.TxOut[0].Value, PkScript: child.TxOut[0].PkScript}}
+		ps.Submit(ps.Build(poolsim.TxSpec{In: []chaingen.Spendable{gc}, Fee: fee(r), NOut: 2}), false, "process", nil)
+	}
+	// a heavier branch from below the block that confirmed the parent, not containing it
+	p := forkBase
+	n := int(ps.Tip.Height-forkBase.Height) + 1
+	ps.F.Clock.Set(ps.F.Clock.Now() + 600)
+	for j := 0; j < n && !ps.Failed; j++ {
+		p = ps.G.Block(r, p, chaingen.BlockOpts{NTx: 0})
+		ps.DeliverBlock(p)
+	}
+	ps.MinableOK = true // the reorganisation is over; what is left in the pool must be minable on the new chain
+	ps.CheckInvariants("after-reorg-refused-parent")
+	k.Count("refused.scenarios", 1)
+	k.Eval(mon.Sig("refused", n), true)
+}
+
 func main() {
 	mon.Main("C10", func(c *mon.Ctx) {
 		c.Rule("one case = a full node (chain+mempool+netsync handler+mining) with a base chain, then 60-99 operations: valid submissions over confirmed/unconfirmed inputs, " +
@@ -409,6 +471,8 @@ func main() {
 		}
 		c.Family("seq", c.N(360, 30000), runSeq)
 		c.Family("nonfinal", c.N(28, 1000), runNonFinal)
+		c.Family("refused", c.N(42, 2000), runRefused)
+		c.Require("refused.scenarios", 20)
 		c.Require("check.invariants", 5000)
 		c.Require("check.minable", 1000)
 		c.Require("replacement.accepted", 20)
